@@ -216,6 +216,11 @@ func (d *defaultFs) Put(ctx context.Context, src io.Reader) (PutRes, error) {
 		if err = d.writeRootKey(ctx, root, content); err != nil {
 			return PutRes{Found: found}, err
 		}
+	} else {
+		// refresh the existing root blob, like the writer does for duplicate leaves
+		if err = d.store.backend.Touch(ctx, d.pather(root)); err != nil {
+			return PutRes{Found: found}, fmt.Errorf("refresh duplicate root key: %s err:%w", d.pather(root), err)
+		}
 	}
 
 	if d.keysCache != nil {
